@@ -7,7 +7,7 @@ use rsjsonnet_lang::arena::Arena;
 
 use crate::corpus::Corpus;
 use crate::json::Json;
-use crate::pgen::{Gen, GenCfg, Node, Ty, COMPARE_SNIPPETS, CYCLIC_SNIPPETS};
+use crate::pgen::{Gen, GenCfg, Node, Ty, COMPARE_SNIPPETS, COMPREHENSION_SNIPPETS, CYCLIC_SNIPPETS};
 use crate::prog::{sched_mode_name, AuditMode, CbGc, Ctx, Out, Sched, SchedMode, SchedStats, World};
 use crate::reqs::{ops_from_json, ops_to_json, Exec, Op, Req};
 use crate::rng::Rng;
@@ -158,6 +158,9 @@ pub fn gen_scenario(seed: u64) -> Scenario {
             files.insert(name.clone(), s.as_bytes().to_vec());
         } else if g.chance(1, 10) {
             let s = *g.pick(COMPARE_SNIPPETS);
+            files.insert(name.clone(), s.as_bytes().to_vec());
+        } else if g.chance(1, 10) {
+            let s = *g.pick(COMPREHENSION_SNIPPETS);
             files.insert(name.clone(), s.as_bytes().to_vec());
         } else if cfg.functions && g.chance(1, 5) {
             // a top-level function (exercises eval_call)
